@@ -288,6 +288,17 @@ def run_transitions(ctx, n):
                 ctx.V(f"C14:transition:not-compact:{form}", f"transition(prev={pt}, value={vt}) was written in the {got_form} form ({len(data)} bytes); the documented compact form is {form}", case, got_form, form)
         else:
             ctx.key(("transition", "marker", vt))
+    # instants that are not on a 100 ns tick: a transition a whole number of hours after such a previous one is written in the hours form and
+    # must read back exactly (previous + hours), sub-tick part included
+    for it in range(max(40, n // 40)):
+        pt = rng.randint(IMINT // 2, IMAXT // 2); sub = rng.choice([1, 50, 99, rng.randint(1, 99)])
+        h = rng.choice([128, 129, 4368, 2**21 - 1, rng.randint(128, 9000)])
+        prev = inst(pt).plus_nanoseconds(sub); val = inst(pt + h * TICKS_HOUR).plus_nanoseconds(sub)
+        case = {"kind": "transition-subtick", "prev": pt, "sub": sub, "h": h}
+        p, data = rt(lambda w, x: w.write_zone_interval_transition(prev, x), lambda r: r.read_zone_interval_transition(prev), val)
+        ctx.ev(); ctx.counters["transitions"] += 1; ctx.key(("transition-subtick", h == 128))
+        if p:
+            ctx.V(f"C14:transition-subtick:{p[0]}", f"previous = tick {pt} + {sub} ns, value = previous + {h} h: {p}", case, p)
     ctx.sample({"kind": "transition", "prev": 0, "val": 4368 * TICKS_HOUR, "form": "hours"})
 
 
